@@ -113,6 +113,7 @@ struct wcfg {
         struct gencfg gen;
         unsigned mon;          /* enabled property monitors */
         int line_max;
+        int interfere;         /* sweeps only: a second, unrelated parser object is serviced between the calls (hidden cross-instance state) */
         int merge_doomed;      /* forget the bytes of lines that are certainly answered ERROR (state merging) */
         int wo_fill;           /* fill byte for write-only storage at init (C08 pairing) */
         int var_init;          /* initial value pattern selector for variables */
